@@ -46,7 +46,7 @@ func w6GenDecode(r *rand.Rand, prop string) *simrt.Case {
 	for i := 0; i < n; i++ {
 		variant := int64(0)
 		if prop == "C34" {
-			variant = int64(1 + r.IntN(8))
+			variant = int64(1 + r.IntN(9))
 		}
 		c.Program = append(c.Program, simrt.Op{Actor: i % 2, Kind: "decode", A: variant, B: int64(r.Uint32()), C: int64(r.IntN(1 << 20)), D: int64(r.IntN(1000))})
 	}
@@ -232,6 +232,14 @@ func damage(seg []byte, variant int64, r *rand.Rand) ([]byte, string) {
 			fixCRCs()
 		}
 		return out, "key length beyond the record"
+	case 9:
+		// a record of length 0 (a single 0x00 length varint) in front of the first batch's records, counted in
+		// the header: nothing forbids a client to send it, and every scanner walks over it
+		out = append(append(append([]byte(nil), out[:32+61]...), 0x00), out[32+61:]...)
+		binary.BigEndian.PutUint32(out[32+8:32+12], binary.BigEndian.Uint32(out[32+8:32+12])+1)
+		binary.BigEndian.PutUint32(out[32+57:32+61], binary.BigEndian.Uint32(out[32+57:32+61])+1)
+		fixCRCs()
+		return out, "zero-length record"
 	default:
 		if r.IntN(2) == 0 {
 			// a frame shorter than a batch header (the broker does not validate this field of a client's batch)
